@@ -755,7 +755,7 @@ def run(tier):
     ops, rules, positions, depths, nfiles, arities, mutfile = {}, {}, {}, {}, {}, {}, {}
     for c in gen:
         rules[c["rule"].split(":")[0]] = rules.get(c["rule"].split(":")[0], 0) + 1
-        nfiles[c["nfiles"]] = nfiles.get(c["nfiles"], 0) + 1
+        nfiles[str(c["nfiles"])] = nfiles.get(str(c["nfiles"]), 0) + 1
         if "max_arity" in c:
             b = "<=3" if c["max_arity"] <= 3 else "4-8" if c["max_arity"] <= 8 else "9-16" if c["max_arity"] <= 16 else ">16"
             arities[b] = arities.get(b, 0) + 1
